@@ -174,7 +174,16 @@ func c20Bodies() []c20Body {
 			y()
 			fl, _ := a.Flatten(0)
 			l, e3 := losses.NewBCE().Compute(fl, f.t1)
-			return []string{obsT(h, e1), obsT(a, e2), obsT(l, e3)}
+			// the Input layer hands out shared tensors (the tracked parameter and the untracked batch)
+			y()
+			in := &layers.Input{SeedFunc: func() tensor.Tensor { return f.p }}
+			s1, e4 := in.Forward()
+			in2 := &layers.Input{SeedFunc: func() tensor.Tensor { return f.x }}
+			s2, e5 := in2.Forward()
+			if e4 == nil && e5 == nil {
+				s1, s2 = s1.Scale(2), s2.Scale(2)
+			}
+			return []string{obsT(h, e1), obsT(a, e2), obsT(l, e3), obsT(s1, e4), obsT(s2, e5)}
 		}},
 		{name: "softmaxce", run: func(f *c20Fixture, y func()) []string {
 			y()
